@@ -315,6 +315,37 @@ Proof.
       specialize (M1 H). specialize (M2 Hm1). lia.
 Qed.
 
+(* with exactly one visible Kubernetes service the loop returns its namespace wherever it sits *)
+Lemma pick_best_loop_kube k l : forall best,
+  In k l -> n_visible k = true -> n_kube k = true ->
+  (forall x, In x l -> n_visible x = true -> n_kube x = true -> x = k) ->
+  pick_best_loop l best = n_ns k.
+Proof.
+  induction l as [|s l IH]; intros best Hin V K U; [destruct Hin|].
+  cbn [pick_best_loop].
+  assert (U' : forall x, In x l -> n_visible x = true -> n_kube x = true -> x = k)
+    by (intros x Hx; apply U; right; exact Hx).
+  destruct (n_visible s) eqn:Vs.
+  - destruct (n_kube s) eqn:Ks.
+    + rewrite (U s (or_introl eq_refl) Vs Ks). reflexivity.
+    + assert (Hin' : In k l) by (destruct Hin as [->|H]; [congruence|exact H]).
+      destruct best as [b|]; [destruct (n_time s <? n_time b)%Z|]; apply IH; assumption.
+  - assert (Hin' : In k l) by (destruct Hin as [->|H]; [congruence|exact H]).
+    apply IH; assumption.
+Qed.
+
+Lemma pick_best_order_kube l l' k :
+  Permutation l l' -> In k l -> n_visible k = true -> n_kube k = true ->
+  (forall x, In x l -> n_visible x = true -> n_kube x = true -> x = k) ->
+  pick_best l = pick_best l'.
+Proof.
+  intros P Hin V K U. unfold pick_best.
+  rewrite (pick_best_loop_kube k l None Hin V K U).
+  symmetry. apply pick_best_loop_kube; try assumption.
+  - eapply Permutation_in; eassumption.
+  - intros x Hx. apply U. eapply Permutation_in; [apply Permutation_sym; exact P|exact Hx].
+Qed.
+
 (* ------------------------------------------------------------------ virtual hosts *)
 
 Lemma merge_all_perm m m' : Permutation m m' -> Permutation (merge_all m) (merge_all m').
